@@ -84,6 +84,9 @@ Inductive label :=
 | LBegin (t : nat) (hid : Z) (p : payload)   (* validateRequest(header id); rc := GetRaftCluster(); checkBootstrapRequest *)
 | LTxn (t : nat) (o : outcome)               (* If(CreateRevision(root) = 0).Then(4 puts).Commit() *)
 | LStart (t : nat)                           (* winner: SaveRegion, Flush, cluster.Start; answer OK *)
+| LStartFail (t : nat)                       (* winner: cluster.Start fails (a storage error while it loads what the transaction wrote;
+                                                a failing SaveRegion/Flush is only logged): the answer is an error although the
+                                                record is stored; the cluster is not running on this member until the next reload *)
 | LReload                                    (* leader change: stopRaftCluster ; createRaftCluster *)
 | LStop                                      (* step down / close: stopRaftCluster *)
 | LMemGet (m : nat)                          (* initClusterID: Get(/pd/cluster_id) *)
@@ -132,6 +135,12 @@ Definition step (s : state) (l : label) : option state :=
           Some (State (e s) (scid s) true (set_thr s t None) (nreq s) (reqs s) (applied s) (n :: acked s) (done_ok s) (mpend s) (mids s))
       | _ => None
       end
+  | LStartFail t =>
+      match thr s t with
+      | Some (PWon n p) =>
+          Some (State (e s) (scid s) (running s) (set_thr s t None) (nreq s) (reqs s) (applied s) (acked s) (done_ok s) (mpend s) (mids s))
+      | _ => None
+      end
   | LReload =>
       Some (State (e s) (scid s) (is_some (root (e s))) (thr s) (nreq s) (reqs s) (applied s) (acked s) (done_ok s) (mpend s) (mids s))
   | LStop =>
@@ -162,6 +171,7 @@ Inductive op :=
                                                    message at all, Some id = header carrying cluster id `id` *)
 | OBegin (t : nat) (h : option Z) (p : payload)  (* Bootstrap whose transaction is parked *)
 | OFinish (t : nat) (o : outcome)             (* release it with this storage outcome; includes the winner's start *)
+| OFinishStartFail (t : nat)                  (* release it (Ok); if it wins, its cluster.Start fails on a storage error *)
 | OIsBoot
 | OReload
 | OStop
@@ -171,7 +181,7 @@ Inductive op :=
 | OCall (name : string) (h : option Z).       (* handler `name` called with an otherwise empty request and header h *)
 
 Inductive obs :=
-| BOk | BAlready | BInvalid (k : invalid) | BConflict | BEtcdErr | BMismatch
+| BOk | BAlready | BInvalid (k : invalid) | BConflict | BEtcdErr | BMismatch | BStartErr
 | BStarted | BBool (b : bool) | BUnit
 | BId (k : nat)            (* cluster id, renamed by order of first appearance *)
 | BAccepted | BNotBoot | BBad.
@@ -226,6 +236,20 @@ Definition boot_finish (s : state) (t : nat) (o : outcome) : option (state * obs
   | _ => None
   end.
 
+Definition boot_finish_startfail (s : state) (t : nat) : option (state * obs) :=
+  match thr s t with
+  | Some (PAfterRc _ _) =>
+      match step s (LTxn t Ok) with
+      | None => None
+      | Some s1 =>
+          match thr s1 t with
+          | Some (PWon _ _) => match step s1 (LStartFail t) with Some s2 => Some (s2, BStartErr) | None => None end
+          | _ => Some (s1, BConflict)
+          end
+      end
+  | _ => None
+  end.
+
 Definition mem_finish (r : rstate) (m : nat) (o : outcome) : rstate * obs :=
   let s := rs r in
   match step s (LMemTxn m (next_c r) o) with
@@ -253,6 +277,7 @@ Definition run_op1 (r : rstate) (o : op) : rstate * obs :=
       | x => lift r x
       end
   | OFinish t oc => lift r (boot_finish s t oc)
+  | OFinishStartFail t => lift r (boot_finish_startfail s t)
   | OIsBoot => (r, BBool (running s))
   | OReload => lift r (match step s LReload with Some s1 => Some (s1, BUnit) | None => None end)
   | OStop => lift r (match step s LStop with Some s1 => Some (s1, BUnit) | None => None end)
@@ -302,7 +327,7 @@ Definition invalid_eqb (a b : invalid) : bool :=
   end.
 Definition obs_eqb (a b : obs) : bool :=
   match a, b with
-  | BOk, BOk | BAlready, BAlready | BConflict, BConflict | BEtcdErr, BEtcdErr | BMismatch, BMismatch
+  | BOk, BOk | BAlready, BAlready | BConflict, BConflict | BEtcdErr, BEtcdErr | BMismatch, BMismatch | BStartErr, BStartErr
   | BStarted, BStarted | BUnit, BUnit | BAccepted, BAccepted | BNotBoot, BNotBoot | BBad, BBad => true
   | BInvalid x, BInvalid y => invalid_eqb x y
   | BBool x, BBool y => Bool.eqb x y
@@ -356,7 +381,7 @@ Fixpoint mon (prev : view) (oks : list payload) (pend : list (nat * payload)) (i
   | o :: r, (b, v) :: br =>
       let pend1 := match o, b with
                    | OBegin t _ p, BStarted => (t, p) :: pend
-                   | OFinish t _, _ => filter (fun x => negb (Nat.eqb (fst x) t)) pend
+                   | OFinish t _, _ | OFinishStartFail t, _ => filter (fun x => negb (Nat.eqb (fst x) t)) pend
                    | _, _ => pend
                    end in
       let won := match o, b with
